@@ -21,7 +21,7 @@ LEVEL = 'exploration'
 RULE = ('per comparable type: every ordered pair (a,b) of the type\'s value domain through the real COMPARE instruction vs '
         'the reference order; laws on all triples; sets/maps from every insertion permutation of <=3 values. '
         'non-trivial = distinct (type, a, b) with a != b')
-BOUND = {'quick': 'all 14 base types; option/or/pair of base types (depth 1, pairs over 6x6 base types); domains of 3-18 values',
+BOUND = {'quick': 'all 14 base types; option/or/pair of base types (depth 1, pairs over 6x6 base types); domains of 3-18 values; per type: every ordered pair compared, every insertion order of 2-3 of the first 5 keys into a set and a map through UPDATE, every 2-key set / map / big_map literal over the first 9 values, DUP-licates',
          'thorough': 'depth 2 (pair/or/option of depth-1 types over a 6-type core), all triples'}
 ASSUMPTIONS = ['same-curve order of secp256k1/P-256 keys is judged as "then bytes" (statement); P-256 keys that differ only '
                'in the parity byte are judged by the laws only (must not compare equal)',
@@ -315,13 +315,15 @@ def check_collection(t, cls, sp, perm, r, ts):
 
 
 def check_literals(t, r, ts, only=None):
-    """PUSH (set t) { a ; b } and PUSH (map t unit) { Elt a Unit ; Elt b Unit } for every ordered pair of the domain: accepted iff
+    """PUSH (set t) { a ; b }, PUSH (map t unit) { Elt a Unit ; Elt b Unit } and the big_map literal { Elt a Unit ; Elt b Unit } (as read
+    from a storage expression) for every ordered pair of the domain: accepted iff
     a < b in the Tezos order - so values that COMPARE equal under different spellings (signatures) are duplicates."""
     from mc import impl as M
     D = dom(t)
     sp = [split(t, v) for v in D]
     ctx = M.make_context()
     tm = T.t_to_micheline(t)
+    bm = A.mk_type(('big_map', t, ('unit',)))
     idx = range(min(len(D), 9))
     for i in idx:
         for j in idx:
@@ -331,12 +333,17 @@ def check_literals(t, r, ts, only=None):
             if not pinned(t, ra, rb):
                 continue
             should = T.compare(t, ra, rb) < 0
-            for kind in ('set', 'map'):
-                if kind == 'set':
-                    code = M.P('PUSH', M.P('set', tm), [ea, eb])
+            for kind in ('set', 'map', 'big_map'):
+                if kind == 'big_map':    # not pushable: the literal a storage carries, read the way storage is read
+                    try:
+                        bm.from_micheline_value([M.P('Elt', ea, M.P('Unit')), M.P('Elt', eb, M.P('Unit'))])
+                        out = ('ok',)
+                    except Exception as e:  # noqa
+                        out = ('raise', type(e).__name__)
+                elif kind == 'set':
+                    out, _ = M.run_impl(M.P('PUSH', M.P('set', tm), [ea, eb]), [], ctx)
                 else:
-                    code = M.P('PUSH', M.P('map', tm, M.P('unit')), [M.P('Elt', ea, M.P('Unit')), M.P('Elt', eb, M.P('Unit'))])
-                out, _ = M.run_impl(code, [], ctx)
+                    out, _ = M.run_impl(M.P('PUSH', M.P('map', tm, M.P('unit')), [M.P('Elt', ea, M.P('Unit')), M.P('Elt', eb, M.P('Unit'))]), [], ctx)
                 acc = out[0] == 'ok'
                 r.ev()
                 r.nt((ts, kind, 'lit', i, j))
